@@ -15,6 +15,7 @@ type cycleCase struct {
 	ID    int     `json:"id"`
 	N     int     `json:"n"`
 	Edges [][]int `json:"edges"`
+	Kinds int     `json:"kinds"` // offset into the menu of dependency kinds
 }
 
 func cycleEngine(args []string) error {
@@ -33,7 +34,19 @@ func cycleEngine(args []string) error {
 			targets[i] = core.NewBuildTarget(label(i))
 		}
 		for _, e := range c.Edges {
-			targets[e[0]].AddDependency(label(e[1]))
+			// every kind of dependency edge is a dependency as far as cycles go: plain deps, labels listed in srcs,
+			// internal ones and run-time ones (which need a binary target), chosen by a fixed function of the edge
+			switch (e[0]*7 + e[1]*3 + c.Kinds) % 4 {
+			case 0:
+				targets[e[0]].AddDependency(label(e[1]))
+			case 1:
+				targets[e[0]].AddMaybeExportedDependency(label(e[1]), false, true, false, false)
+			case 2:
+				targets[e[0]].AddMaybeExportedDependency(label(e[1]), false, false, true, false)
+			default:
+				targets[e[0]].IsBinary = true
+				targets[e[0]].AddMaybeExportedDependency(label(e[1]), false, false, false, true)
+			}
 		}
 		for i := 1; i <= c.N; i++ {
 			graph.AddTarget(targets[i])
